@@ -60,6 +60,9 @@ type world struct {
 	vcache   map[string]bool
 	jg       *model.JoinedGroupInfo // the node's key table for the group (member id -> share key)
 	attSK    groupsig.Seckey        // the key an attacker announces for other members
+	bhA      types.BlockHeader      // an earlier block of the same group (its round ran in this process before)
+	g2       *cryptoutil.Group      // a second group with the same members (other share keys)
+	gid2     groupsig.ID
 }
 
 func (w *world) pkOf(i int) groupsig.Pubkey {
@@ -140,7 +143,47 @@ func newWorld(salt int64, scratch string) *world {
 	w.bh.Hash = w.bh.GenHash()
 	w.h = w.bh.Hash
 	w.other = base.Data2CommonHash([]byte(fmt.Sprintf("another-block-%d", salt)))
+	// an earlier block A of the same group
+	w.bhA = types.BlockHeader{Height: 9, PreHash: w.preBH.Hash, GroupId: w.gid.Serialize(), Castor: []byte{9, 9}, TotalQN: 8,
+		CurTime: w.preBH.CurTime.Add(1e9)}
+	w.bhA.Hash = w.bhA.GenHash()
+	// a second joined group with the same members: its share keys differ (they depend on the group hash)
+	g2, err := cryptoutil.RunDKGOpts(rng, nMem, fmt.Sprintf("c15-second-%d", salt), cryptoutil.Opts{Miners: g.Miners})
+	if err != nil {
+		vutil.Fatalf("dkg 2: %v", err)
+	}
+	w.g2 = g2
+	w.gid2 = *groupsig.NewIDFromPubkey(g2.GPK[0])
+	jg2 := model.NewJoindGroupInfo(g2.SignSK[0], g2.GPK[0], g2.Info.GroupHash())
+	for i := 1; i <= nMem; i++ {
+		jg2.AddMemberSignPK(g2.IDs[i-1], g2.SignPK[i-1])
+	}
+	storage.JoinGroup(jg2, g.IDs[0])
 	return w
+}
+
+// prelude is what this verifier process did before the rounds under test: it looked up every member's
+// share key of the OTHER joined group (as a round of that group does), and it ran the round of an
+// EARLIER block A of this group in which every member's valid share over hash(A) was verified.
+func (w *world) prelude(tr *vutil.Trace) {
+	for i := 1; i <= nMem; i++ {
+		pk, ok := group_create.GroupCreateProcessor.GetMemberSignPubKey(w.gid2, w.g.IDs[i-1])
+		tr.Emit(map[string]interface{}{"event": "Prelude", "what": "lookup in the other group", "member": i,
+			"found": ok, "isOtherGroupsKey": ok && pk.IsEqual(w.g2.SignPK[i-1])})
+	}
+	bh := w.bhA
+	r := logical.VerifNewRound1(w.g.IDs[0], w.info, w.preBH, &bh)
+	if r == nil {
+		vutil.Fatalf("cannot build the round of block A")
+	}
+	for i := 2; i <= nMem; i++ {
+		sk := w.skOf(i)
+		cvm := &model.ConsensusVerifyMessage{BlockHash: bh.Hash, RandomSign: groupsig.Sign(sk, w.preBH.Random), Id: fmt.Sprintf("a%d", i),
+			SignInfo: model.MakeSignInfo(bh.Hash, groupsig.Sign(sk, bh.Hash.Bytes()), w.idOf(i), common.ConsensusVersion)}
+		errText := r.Update(cvm)
+		tr.Emit(map[string]interface{}{"event": "Prelude", "what": "round of block A", "member": i, "err": errText,
+			"counted": len(r.BlockShares())})
+	}
 }
 
 var msgSeq int
@@ -197,6 +240,8 @@ func (w *world) build(m tmsg, wire bool) (*model.ConsensusVerifyMessage, common.
 	case "underOtherKey": // filed under a member's id, made with the key somebody else announced for it
 		share = groupsig.Sign(w.attSK, w.h.Bytes())
 		rnd = groupsig.Sign(w.attSK, w.preBH.Random)
+	case "staleShare": // the sender's valid share of block A's round, re-sent under this block's hash
+		share = groupsig.Sign(sk, w.bhA.Hash.Bytes())
 	case "swapped": // the two shares in each other's field: each invalid where it stands, their sum unchanged
 		share, rnd = rnd, share
 	case "shiftRandom": // block share + D, beacon share - D for a point D nobody can relate to the shares
@@ -281,13 +326,13 @@ func (w *world) resetKeys(withoutLate bool) {
 }
 
 func (w *world) keyTable() []string {
-	out := make([]string, nMem)
-	for i := 1; i <= nMem; i++ {
-		pk, ok := w.jg.GetMemberSignPK(w.g.IDs[i-1])
+	out := make([]string, nMem+1)
+	for i := 1; i <= nMem+1; i++ {
+		pk, ok := w.jg.GetMemberSignPK(w.idOf(i))
 		switch {
 		case !ok:
 			out[i-1] = "none"
-		case pk.IsEqual(w.g.SignPK[i-1]):
+		case i <= nMem && pk.IsEqual(w.g.SignPK[i-1]):
 			out[i-1] = "genuine"
 		default:
 			out[i-1] = "other"
@@ -361,6 +406,7 @@ func main() {
 	cnet.InitStateMachines()    // creates the consensus/net package logger
 	w := newWorld(*salt, *scratch)
 	tr := vutil.NewTrace(outAbs)
+	w.prelude(tr)
 	nmsg, nwire, nrec := 0, 0, 0
 	kinds := map[string]int{}
 	for hi, hist := range hists {
@@ -377,7 +423,7 @@ func main() {
 		}
 		aboutKeys := false
 		for _, m := range hist {
-			if m.Kind == "announce" || m.Kind == "announceOther" || m.Kind == "underOtherKey" {
+			if m.Kind == "announce" || m.Kind == "announceOther" || m.Kind == "underOtherKey" || m.Kind == "announceOutsider" {
 				aboutKeys = true
 			}
 		}
@@ -385,7 +431,7 @@ func main() {
 		tr.Emit(map[string]interface{}{"event": "Start", "path": path, "n": w.info.GetMemberCount(), "k": r.Threshold(), "keys": w.keyTable()})
 		dead := false
 		for _, m := range hist {
-			if m.Kind == "announce" || m.Kind == "announceOther" {
+			if m.Kind == "announce" || m.Kind == "announceOther" || m.Kind == "announceOutsider" {
 				w.announce(m.Sender, m.Kind == "announceOther")
 				tr.Emit(map[string]interface{}{"event": "Msg", "m": m, "facts": map[string]interface{}{}, "err": "", "panicked": false, "state": w.project(r)})
 				nmsg++
@@ -434,7 +480,7 @@ func main() {
 	}
 	tr.Close()
 	fmt.Printf("c15: histories=%d wire=%d messages=%d recovered=%d", len(hists), nwire, nmsg, nrec)
-	for _, k := range []string{"honest", "otherHash", "replay", "garbage", "offcurve", "badRand", "emptyRand", "swapped", "shiftRandom", "shiftSmall", "selfGarbage", "selfOther", "selfSender", "announce", "announceOther", "underOtherKey", "nonMember"} {
+	for _, k := range []string{"honest", "otherHash", "replay", "garbage", "offcurve", "badRand", "emptyRand", "swapped", "shiftRandom", "shiftSmall", "staleShare", "selfGarbage", "selfOther", "selfSender", "announce", "announceOther", "announceOutsider", "underOtherKey", "nonMember"} {
 		fmt.Printf(" %s=%d", k, kinds[k])
 	}
 	fmt.Printf(" events=%d\n", tr.N)
